@@ -726,7 +726,12 @@ def c08decide (user : Bytes) (rules : List Bytes) (o : PathOracle) : Option Bool
   let gen := (Gen.User.User.iteratePaths ext { Name := user, permissions := rules } (o.clean.getD []) READFILES).2.1
   let reachesRules := !(user = Facts.scheduleUserBytes ∨ user = Facts.continuousUserBytes) ∧ o.clean.isSome ∧ o.regular
   let modelAns := modelAns0
-  let genOk := !reachesRules || gen == modelAns0
+  -- … and the whole translated `HasFilePermission`, with the file system answered from the oracle, the model's decision
+  let extFs : Go.Ext := { ext with
+    evalSymlinks := fun p => match o.clean with | some c => (c, none) | none => (p, some (b!"no such file")),
+    osLstat := fun _ => ({ regular := o.regular }, none) }
+  let genAll := (Gen.User.User.HasFilePermission extFs { Name := user, permissions := rules } [] READFILES).2
+  let genOk := (!reachesRules || gen == modelAns0) && genAll == modelAns0
   -- specification: last matching rule (spec syntax) is an allow, all compile, regular, resolved
   let specAns :=
     if user = Facts.scheduleUserBytes ∨ user = Facts.continuousUserBytes then true else
@@ -914,7 +919,7 @@ def stateStr (fs : FS) (path : Bytes) : String :=
     records (none of them failing, `os.Stat` answering for `fs0`) as operations of the model -/
 def c15translated (fs0 : FS) (r : OutReq) : Option (List FOp) :=
   let stat : Go.GoString → Go.GoFileInfo × Go.GoErr := fun p => match fsGet fs0 p with
-    | some c => (⟨c.length⟩, none)
+    | some c => ({ size := c.length }, none)
     | none => ({}, some [])
   let ext : Go.Ext := { parseFloat := fun _ => (0, none), rowValues := r.rows, osStat := stat }
   let q : Gen.Outfile.Query := { Select := r.header.map (fun h => ⟨h⟩), Limit := r.limit, Outfile := some ⟨r.path, r.append⟩, RawQuery := r.rawQuery }
